@@ -509,7 +509,12 @@ def block_diagonalize(
             to_eliminate = fully_diagonalize
             to_keep = {i: 1 - eliminate for i, eliminate in to_eliminate.items()}
         else:
-            to_keep = equal_eigs
+            # Levels that are equal up to atol only through a chain of neighbours stay
+            # together: the kept part of a block must be closed under multiplication.
+            to_keep = {
+                i: equal if diagonal[i].dtype == object else _transitive_closure(equal)
+                for i, equal in equal_eigs.items()
+            }
             to_eliminate = {i: 1 - keep for i, keep in to_keep.items()}
 
         # Convert numpy arrays to sympy matrices if blocks are symbolic.
@@ -1649,6 +1654,12 @@ def _extract_diagonal(
         diags.append(eigs)
 
     return tuple(diags)
+
+
+def _transitive_closure(related: np.ndarray) -> np.ndarray:
+    """Return the transitive closure of a symmetric 0/1 relation matrix."""
+    _, labels = sparse.csgraph.connected_components(related, directed=False)
+    return (labels.reshape(-1, 1) == labels).astype(int)
 
 
 def _convert_if_zero(value: Any, atol: float = 1e-12):
